@@ -238,7 +238,15 @@ C17Single(pr, via, skip) ==
                  !.run.query = "target=" \o T4 \o "&protocol=" \o pr[1] \o "&tcp-method=" \o pr[2] \o "&port=443&max-ttl=1&timeout=300&traceroute-queries=2&e2e-queries=1"
                                \o "&skip-private-hops=" \o (IF skip THEN "true" ELSE "false"),
                  !.extra.expect17.single = TRUE]
-C17All(u) == { C17Single(pr, via, sk) : pr \in {<<"icmp", "", FALSE>>, <<"udp", "", FALSE>>, <<"tcp", "syn", FALSE>>}, via \in {"lib", "http"}, sk \in BOOLEAN } \cup { C17Priv(pr, via, sk) : pr \in {<<"icmp", "", FALSE>>, <<"udp", "", FALSE>>}, via \in {"lib", "http"}, sk \in BOOLEAN } \cup { C17Run(pr, via, sk, rd, sil, 1) : pr \in {<<"icmp", "", FALSE>>, <<"udp", "", FALSE>>, <<"tcp", "syn", FALSE>>, <<"tcp", "sack", FALSE>>},
+\* the HTTP request carries an UNPARSABLE value for another optional parameter (which falls back to its default): skipping is
+\* still what the request said
+C17BadSibling(pr, sil, bad, front) ==
+    LET base == C17Run(pr, "http", TRUE, FALSE, sil, 1) IN
+    [base EXCEPT !.id = @ \o "/bad_sibling/" \o bad \o (IF front THEN "/front" ELSE "/back"), !.label = @ \o "/unparsable_sibling_parameter",
+                 !.run.query = IF front THEN bad \o "&" \o @ ELSE @ \o "&" \o bad]
+C17All(u) == { C17BadSibling(pr, sil, bad, fr) : pr \in {<<"icmp", "", FALSE>>, <<"udp", "", FALSE>>}, sil \in {2, 7},
+                                                   bad \in {"ipv6=maybe", "windows-driver=si", "source-public-ip=si", "port=q", "reverse-dns=maybe"}, fr \in BOOLEAN }
+             \cup { C17Single(pr, via, sk) : pr \in {<<"icmp", "", FALSE>>, <<"udp", "", FALSE>>, <<"tcp", "syn", FALSE>>}, via \in {"lib", "http"}, sk \in BOOLEAN } \cup { C17Priv(pr, via, sk) : pr \in {<<"icmp", "", FALSE>>, <<"udp", "", FALSE>>}, via \in {"lib", "http"}, sk \in BOOLEAN } \cup { C17Run(pr, via, sk, rd, sil, 1) : pr \in {<<"icmp", "", FALSE>>, <<"udp", "", FALSE>>, <<"tcp", "syn", FALSE>>, <<"tcp", "sack", FALSE>>},
                  via \in {"lib", "http"}, sk \in BOOLEAN, rd \in BOOLEAN, sil \in {2, 7} }
              \cup { C17Run(<<"icmp", "", FALSE>>, "http", sk, rd, 2, sp) : sk \in BOOLEAN, rd \in BOOLEAN, sp \in 2..6 }
 
@@ -332,12 +340,23 @@ C10Enrich(pr, dnsb, pub, via) ==
      kind |-> "run", per_flow |-> TRUE, sack_perm |-> TRUE, isn32 |-> <<4660, 1>>,
      run |-> [Run(pr[1], pr[2], pr[3], 1, 4, 1, 1) EXCEPT !.reverse_dns = TRUE, !.dns = [x \in {"*"} |-> dnsb], !.via = via,
                 !.public_ip = (pub # "none"), !.pub_mode = IF pub = "none" THEN "ok" ELSE pub,
-                !.query = "target=" \o T4 \o "&max-ttl=4&traceroute-queries=1&e2e-queries=1&timeout=300&reverse-dns=true&protocol=" \o pr[1]],
+                !.query = "target=" \o T4 \o "&max-ttl=4&traceroute-queries=1&e2e-queries=1&timeout=300&reverse-dns=true&protocol=" \o pr[1] \o (IF pub # "none" THEN "&source-public-ip=true" ELSE "")],
      path |-> PathFor(pr[1], pr[3], 1, 4, 3, 0)]
 C10ReqAll(u) == { C10Enrich(pr, d, pub, via) : pr \in {<<"udp", "", FALSE>>, <<"icmp", "", FALSE>>}, via \in {"lib", "http"},
-                                               d \in {"+300:n-slow", "+2600:n-slower", "+4900:n-slowest", "!boom", "~", "n-a;+2600:n-b"}, pub \in {"none", "slow", "fail"} }
+                                               d \in {"+300:n-slow", "+2600:n-slower", "+4900:n-slowest", "!boom", "~", "n-a;+2600:n-b"}, pub \in {"none", "ok", "slow", "fail"} }
 
-Cases == CASE Gen = "C06" -> C06ReqAll(0) [] Gen = "C10" -> C10ReqAll(0) [] Gen = "C01" -> C01ReqAll(0) [] Gen = "C05" -> C05All(0) [] Gen = "Hist" -> HistAll(0) [] Gen = "C15" -> C15All(0)
+---------------------------------------------------------------------------
+(* C04 at request level: the destination mark of the Results the LIBRARY returns (the JSON document has no such field), with and     *)
+(* without reverse-DNS enrichment (names / no names / failing resolver): marked exactly on the hops that are the target's           *)
+C04Req(pr, rdns, dnsb) ==
+    [id |-> "C04/req/" \o pr[1] \o pr[2] \o (IF pr[3] THEN "6" ELSE "4") \o "/" \o (IF rdns THEN "rdns" ELSE "plain") \o "/" \o dnsb,
+     label |-> "request/" \o pr[1] \o pr[2] \o "/" \o (IF rdns THEN "rdns=" \o dnsb ELSE "plain"),
+     kind |-> "run", per_flow |-> TRUE, sack_perm |-> TRUE, isn32 |-> <<4660, 1>>,
+     run |-> [Run(pr[1], pr[2], pr[3], 1, 5, 2, 1) EXCEPT !.reverse_dns = rdns, !.dns = [x \in {"*"} |-> dnsb]],
+     path |-> PathFor(pr[1], pr[3], 1, 5, 3, 0)]
+C04ReqAll(u) == { C04Req(pr, TRUE, d) : pr \in Protos, d \in {"n-a", "x-1,y-2", "", "!boom"} } \cup { C04Req(pr, FALSE, "none") : pr \in Protos }
+
+Cases == CASE Gen = "C04" -> C04ReqAll(0) [] Gen = "C06" -> C06ReqAll(0) [] Gen = "C10" -> C10ReqAll(0) [] Gen = "C01" -> C01ReqAll(0) [] Gen = "C05" -> C05All(0) [] Gen = "Hist" -> HistAll(0) [] Gen = "C15" -> C15All(0)
            [] Gen = "C11" -> C11All(0)
            [] Gen = "C17" -> C17All(0)
            [] Gen = "C19" -> C19All(0)
